@@ -140,3 +140,68 @@ func VerifC14_SenderChain() {
 	verif.Assert(ret == last && chain.senderFiltersIndex == 0, "send pass result/index")
 	verif.Cover("end")
 }
+
+// VerifC14_PooledChain: filter chains are recycled through a sync.Pool. One
+// stream runs its receive filters and ends in any state (completed, stopped,
+// or with a re-match / re-choose still pending); its chain goes back to the
+// pool. The next stream takes a chain from the pool (the recycled one or a
+// fresh one - both explored), registers its own filters, and must see every
+// filter of the first phase run in configured order from the first one.
+func VerifC14_PooledChain() {
+	verif.PoolReuse(true)
+	ctx := context.Background()
+	// first stream
+	c1 := GetDefaultStreamFilterChain()
+	log1 := &zzLog{}
+	n1 := 1 + verif.Choose("n1", verif.Param("pfilters1", 2, 3))
+	for i := 0; i < n1; i++ {
+		c1.AddStreamReceiverFilter(&zzRecvFilter{idx: i, log: log1}, api.BeforeRoute)
+	}
+	c1.AddStreamSenderFilter(&zzSendFilter{idx: 0, log: log1}, api.BeforeSend)
+	c1.RunReceiverFilter(ctx, api.BeforeRoute, nil, nil, nil, func(api.ReceiverFilterPhase, api.StreamFilterStatus) {})
+	if verif.Choose("first_stream_sends", 2) == 1 {
+		c1.RunSenderFilter(ctx, api.BeforeSend, nil, nil, nil, nil)
+	}
+	PutStreamFilterChain(c1) // the stream ends here, whatever was pending
+	// second stream
+	c2 := GetDefaultStreamFilterChain()
+	if c2 == c1 {
+		verif.Cover("recycled")
+	} else {
+		verif.Cover("fresh")
+	}
+	log2 := &zzLog{}
+	n2 := 1 + verif.Choose("n2", 2)
+	for i := 0; i < n2; i++ {
+		c2.AddStreamReceiverFilter(&zzContinueFilter{idx: i, log: log2}, api.BeforeRoute)
+	}
+	c2.AddStreamSenderFilter(&zzContinueFilter{idx: 100, log: log2}, api.BeforeSend)
+	ret := c2.RunReceiverFilter(ctx, api.BeforeRoute, nil, nil, nil, func(api.ReceiverFilterPhase, api.StreamFilterStatus) {})
+	verif.Assert(ret == api.StreamFilterContinue, "all filters continue: the pass continues")
+	verif.Assert(len(log2.calls) == n2, "a stream's receive filters did not all run (a recycled chain skipped or repeated some)")
+	for k, c := range log2.calls {
+		verif.Assert(c.idx == k, "a stream's receive filters ran out of configured order")
+	}
+	log2.calls = nil
+	c2.RunSenderFilter(ctx, api.BeforeSend, nil, nil, nil, nil)
+	verif.Assert(len(log2.calls) == 1 && log2.calls[0].idx == 100, "a stream's send filter did not run exactly once (a recycled chain kept state of the previous stream)")
+	verif.Cover("end")
+}
+
+// zzContinueFilter always continues.
+type zzContinueFilter struct {
+	idx int
+	log *zzLog
+}
+
+func (f *zzContinueFilter) OnDestroy() {}
+func (f *zzContinueFilter) OnReceive(ctx context.Context, h api.HeaderMap, b api.IoBuffer, t api.HeaderMap) api.StreamFilterStatus {
+	f.log.calls = append(f.log.calls, zzCall{f.idx, api.StreamFilterContinue})
+	return api.StreamFilterContinue
+}
+func (f *zzContinueFilter) SetReceiveFilterHandler(api.StreamReceiverFilterHandler) {}
+func (f *zzContinueFilter) Append(ctx context.Context, h api.HeaderMap, b api.IoBuffer, t api.HeaderMap) api.StreamFilterStatus {
+	f.log.calls = append(f.log.calls, zzCall{f.idx, api.StreamFilterContinue})
+	return api.StreamFilterContinue
+}
+func (f *zzContinueFilter) SetSenderFilterHandler(api.StreamSenderFilterHandler) {}
